@@ -7,6 +7,7 @@ package main
 // construct with a wrong detail); an unrecognised shape is UNDECIDED.
 
 import (
+	"go/types"
 	"fmt"
 	"go/constant"
 	"go/token"
@@ -704,6 +705,11 @@ func checkLocationEvaluator(c *Ctx, gsq, ev *ssa.Function) {
 			}
 		}
 	}
+	// the evaluator leaves the location it reads alone: a by-value Location still shares its SubLocations with the
+	// feature it was taken from, so re-ordering or re-flagging operands in place changes the stored feature
+	if ws := sublocationWrites(c, ev); true {
+		c.check(len(ws) == 0, "TERM-EVAL", "the evaluator does not modify the location it is given", ev.Pos(), "no store goes through the SubLocations list of the location that is read", "reading a feature's sequence changes the feature: "+strings.Join(ws, "; ")+": the first GetSequence is right, the next one (and every later write) sees the altered operands")
+	}
 	c.judge(stt, "TERM-EVAL", "complement => ReverseComplement of the whole concatenation", ev.Pos(), "result = RC(concatenation) exactly on the location.Complement branch", why)
 	// GetSequence
 	gtb := newTB(gsq)
@@ -1092,4 +1098,61 @@ func flattenLeaf(tb *TermBuilder, t *Term) []string {
 		return nil
 	}
 	return out
+}
+
+
+// sublocationWrites: stores, in the evaluator and the same-package functions it reaches, into an ELEMENT of a
+// SubLocations list (operands[i] = …, operands[i].Complement = …): a Location handed over by value is a copy,
+// its SubLocations list is not – the elements belong to the feature the location was taken from.
+func sublocationWrites(c *Ctx, ev *ssa.Function) []string {
+	var out []string
+	fromSubLocations := func(v ssa.Value) bool {
+		for d := 0; d < 10; d++ {
+			switch x := v.(type) {
+			case *ssa.Slice:
+				v = x.X
+			case *ssa.Phi:
+				if len(x.Edges) == 0 {
+					return false
+				}
+				v = x.Edges[0]
+			case *ssa.Field:
+				if st, ok := x.X.Type().Underlying().(*types.Struct); ok && st.Field(x.Field).Name() == "SubLocations" {
+					return true
+				}
+				return false
+			case *ssa.UnOp:
+				if fa, ok := x.X.(*ssa.FieldAddr); ok && x.Op.String() == "*" {
+					return storeFieldName(fa) == "SubLocations"
+				}
+				return false
+			default:
+				return false
+			}
+		}
+		return false
+	}
+	for _, f := range family(ev) {
+		eachInstr(f, func(i ssa.Instruction) {
+			st, ok := i.(*ssa.Store)
+			if !ok {
+				return
+			}
+			addr := st.Addr
+			for d := 0; d < 6; d++ {
+				switch x := addr.(type) {
+				case *ssa.FieldAddr:
+					addr = x.X
+					continue
+				case *ssa.IndexAddr:
+					if fromSubLocations(x.X) {
+						out = append(out, fname(f)+" stores into an element of a SubLocations list at "+c.W.pos(st.Pos()))
+					}
+				}
+				break
+			}
+		})
+	}
+	sort.Strings(out)
+	return dedupe(out)
 }
